@@ -409,7 +409,12 @@ func v6Fix(res *OracleResult, r *Rng, n int, thorough bool, seeds []string, seen
 					what = fmt.Sprint("panic: ", e)
 				}
 			}()
-			m0, err := dhcpv6.FromBytes(b)
+			// decoded as a receiver decodes: from a buffer that is reused at once
+			rb := append([]byte{}, b...)
+			m0, err := dhcpv6.FromBytes(rb)
+			for i := range rb {
+				rb[i] ^= 0x5a
+			}
 			if err != nil {
 				return
 			}
